@@ -70,7 +70,7 @@ def check_resolve_order(rep: Report, prog: Program) -> None:
             reg_alias[n_.targets[0].id] = ast.unparse(n_.value)
 
     def classify(v: Optional[ast.AST], env: Dict[str, str]) -> str:
-        if v is None:
+        if v is None or (isinstance(v, ast.Constant) and v.value is None):
             return "none"
         if isinstance(v, ast.Name) and v.id in env:
             return env[v.id]
@@ -85,10 +85,18 @@ def check_resolve_order(rep: Report, prog: Program) -> None:
             return "name"
         return "other:" + t[:30]
 
-    def truth(t: ast.AST, facts: Dict[str, bool]) -> Optional[bool]:
+    def truth(t: ast.AST, facts: Dict[str, bool], env: Optional[Dict[str, str]] = None) -> Optional[bool]:
         if isinstance(t, ast.UnaryOp) and isinstance(t.op, ast.Not):
-            v = truth(t.operand, facts)
+            v = truth(t.operand, facts, env)
             return None if v is None else not v
+        # a local that holds what a helper found (or None)
+        if env is not None and isinstance(t, ast.Name) and t.id in env and not env[t.id].startswith("other:"):
+            return env[t.id] != "none"
+        if env is not None and isinstance(t, ast.Compare) and len(t.ops) == 1 and isinstance(t.ops[0], (ast.Is, ast.IsNot)) \
+                and isinstance(t.left, ast.Name) and t.left.id in env and not env[t.left.id].startswith("other:") \
+                and isinstance(t.comparators[0], ast.Constant) and t.comparators[0].value is None:
+            isnone = env[t.left.id] == "none"
+            return isnone if isinstance(t.ops[0], ast.Is) else not isnone
         if isinstance(t, ast.Compare) and len(t.ops) == 1 and isinstance(t.ops[0], (ast.In, ast.NotIn)) and ast.unparse(t.left) == text:
             reg = ast.unparse(t.comparators[0])
             reg = reg_alias.get(reg, reg)
@@ -103,6 +111,30 @@ def check_resolve_order(rep: Report, prog: Program) -> None:
             t = t.replace(f"{al_}[", f"{full_}[")
         return ("Prefix.resolve_symbol(" in t or "_by_symbol[" in t) and f"[{text}]" not in t.replace(" ", "")
 
+    def helper_kind(v: ast.AST, facts: Dict[str, bool]) -> Optional[str]:
+        """`cls._resolve_prefixed_symbol(symbol)`: what a method of Unit that is handed the whole text returns under these facts"""
+        nonlocal text
+        if not (isinstance(v, ast.Call) and isinstance(v.func, ast.Attribute) and isinstance(v.func.value, ast.Name)
+                and v.func.value.id in ("cls", "Unit") and f"Unit.{v.func.attr}" in prog.functions and not v.keywords
+                and len(v.args) == 1 and isinstance(v.args[0], ast.Name) and v.args[0].id == text):
+            return None
+        h = prog.functions[f"Unit.{v.func.attr}"]
+        if h.qual == fi.qual or len(h.params()) != 2:
+            return None
+        saved = text
+        text = h.params()[1]
+        try:
+            hb = [x for x in h.node.body if not (isinstance(x, ast.Expr) and isinstance(x.value, ast.Constant))]  # type: ignore[attr-defined]
+            try:
+                run(hb, facts, {})
+                return "none"
+            except _Done as d:
+                if d.kind == "raise":
+                    raise AnalysisError(f"Unit.resolve_symbol: helper {h.qual} raises; outside the resolution-order walker")
+                return d.kind
+        finally:
+            text = saved
+
     def run(body: List[ast.stmt], facts: Dict[str, bool], env: Dict[str, str]) -> str:
         """-> 'fall' | 'continue' ; raises _Done for return/raise"""
         for st in body:
@@ -113,12 +145,13 @@ def check_resolve_order(rep: Report, prog: Program) -> None:
             if isinstance(st, ast.Raise):
                 raise _Done("raise")
             if isinstance(st, ast.Assign) and len(st.targets) == 1 and isinstance(st.targets[0], ast.Name):
-                env[st.targets[0].id] = classify(st.value, env)
+                hk = helper_kind(st.value, facts)
+                env[st.targets[0].id] = hk if hk is not None else classify(st.value, env)
                 continue
             if isinstance(st, (ast.Assign, ast.AnnAssign)):
                 continue
             if isinstance(st, ast.If):
-                v = truth(st.test, facts)
+                v = truth(st.test, facts, env)
                 if v is None:
                     raise AnalysisError(f"Unit.resolve_symbol: cannot decide `{ast.unparse(st.test)[:40]}` from the registration facts")
                 r = run(st.body if v else st.orelse, facts, env)
